@@ -124,11 +124,11 @@ func (g *Gen) initTrusted() {
 		return Val{T: ite(eq(args[0].T, "nilref"), ref, args[0].T)}, true
 	}}
 	scaledRule := func(fc *FnCtx, st *State, in ssa.Instruction, c *ssa.CallCommon, args []Val, resT types.Type) (Val, bool) {
-		fc.useTrusted("intstr.GetScaledValueFromIntOrPercent(v,total,up): Int => (IntVal,nil); String \"n%\" => (ceil|floor(n*total/100), nil); else (0, err); float arithmetic treated as exact")
+		fc.useTrusted("intstr.GetScaledValueFromIntOrPercent(v,total,up): Int => (IntVal,nil); String \"n%\" => (ceil|floor(n*total/100), nil); nil or anything else => (0, err); float arithmetic treated as exact")
 		pt := c.Args[0].Type().Underlying().(*types.Pointer).Elem()
-		fc.nilCheck(st, args[0].T, shortExpr(c.Args[0]), in.Pos())
+		// a nil argument is not a crash: the library returns (0, error)
 		ty, iv, sv := iosFields(fc, st, Val{T: args[0].T}, pt)
-		ok := app("scaledOk", ty, sv)
+		ok := and(not(eq(args[0].T, "nilref")), app("scaledOk", ty, sv))
 		val := app("scaled", ty, iv, sv, args[1].T, args[2].T)
 		r := fc.q.freshConst("scaled", sInt)
 		fc.q.assert(implies(st.reach, eq(r, ite(ok, val, "0"))))
@@ -265,6 +265,33 @@ func (g *Gen) initTrusted() {
 		mb, okB := c.Args[n-1].(*ssa.MakeInterface)
 		if !okA || !okB || !types.Identical(ma.X.Type(), mb.X.Type()) {
 			return Val{}, false
+		}
+		if isStructLike(ma.X.Type()) {
+			// two struct values of scalars: field-wise equality
+			var ls []Leaf
+			fc.g.ti.leaves(ma.X.Type(), 0, "", &ls)
+			for _, l := range ls {
+				if l.sort != sInt && l.sort != sStr && l.sort != sBool {
+					return Val{}, false
+				}
+			}
+			a, b := fc.val(st, ma.X), fc.val(st, mb.X)
+			if a.SV == nil || b.SV == nil {
+				return Val{}, false
+			}
+			fc.useTrusted("reflect.DeepEqual on struct values whose leaves are scalars: field-wise equality")
+			leaf := func(sv *StructVal, l Leaf) string {
+				if sv.zero {
+					return zeroOf(l.sort)
+				}
+				fc.g.regArr(l.arr, l.sort)
+				return sel(sv.st.get(l.arr), emb(sv.ref, l.off))
+			}
+			var cs []string
+			for _, l := range ls {
+				cs = append(cs, eq(leaf(a.SV, l), leaf(b.SV, l)))
+			}
+			return Val{T: and(cs...)}, true
 		}
 		pt, ok := ma.X.Type().Underlying().(*types.Pointer)
 		if !ok || !isStructLike(pt.Elem()) {
